@@ -19,18 +19,19 @@ RULE = (
     "filter's own gate admits, so a covariance that passes the invariant can never be legitimately refused by the next "
     "call). A history is truncated (not failed) when |P| leaves [1e-6,1e3] or |x| exceeds 100 (bounded dynamic range: prior/noise <= 2e4; nonlinear sensor Jacobians stay <= ~3e4 so that eps*|H|^2*|P| stays below the sensor noise). Non-trivial = >=5 executed steps with "
     "both predictions and updates on a model whose process Jacobian is singular or whose initial covariance is rank "
-    "deficient; distinct = sha1(case). A quarter of the cases are 'wide dynamic range' histories (prior L L^T up to ~1e6 with "
+    "deficient; distinct = sha1(case). The same kind of history (<= 25 steps, bounded range) is also run through the generated C++ filter (one compile per history): every covariance it returns from a valid one must be valid. A quarter of the cases are 'wide dynamic range' histories (prior L L^T up to ~1e6 with "
     "correlated states, sensor noise 1e-3..1e-1): there only the gate is judged: a refusal "
     "counts iff the refused input was symmetric/PSD to 1e-12 of its own magnitude; an output that is not strictly valid "
     "(accuracy there is eps*cond(S)*|prior|) truncates the history."
 )
 ASSUMPTIONS = [
+    "the generated C++ filter has no validity gate of its own; for it only the 'valid in => valid out' clause is checked, on histories of <= 25 steps, against the Eigen stand-in",
     "noises in [0.05,2], initial eigenvalues in [0.05,20] (bounded noise/covariance ratios as the property's quantifier states)",
     "numpy eigvalsh decides the PSD predicate",
 ]
 BUDGET = {
-    "quick": {"shards": 16, "examples": 50, "wall": 110, "steps": 40},
-    "thorough": {"shards": 16, "examples": 3500, "wall": 900, "steps": 60},
+    "quick": {"shards": 16, "examples": 50, "wall": 110, "steps": 40, "cpp_examples": 2},
+    "thorough": {"shards": 16, "examples": 3500, "wall": 900, "steps": 60, "cpp_examples": 40},
 }
 
 MASS = {
@@ -75,7 +76,7 @@ def correlated_model(draw):
 
 
 @st.composite
-def cases(draw, steps=40):
+def cases(draw, steps=40, cpp=False):
     kind = draw(st.sampled_from(["euler", "correlated", "correlated", "mass"]))
     if kind == "euler":
         m = draw(models.model_specs(names="ident", n_state=(1, 3), n_control=(0, 2), n_calib=(0, 1), n_sensors=(1, 2),
@@ -98,7 +99,7 @@ def cases(draw, steps=40):
         P0 = [[(lam[i] if i == j else e * draw(st.floats(-1, 1, allow_nan=False))) for j in range(n)] for i in range(n)]
         P0 = [[P0[min(i, j)][max(i, j)] for j in range(n)] for i in range(n)]
     # (linear sensors only: with a nonlinear sensor |H|^2 |P| eps can exceed the sensor noise at large states)
-    wide = kind != "euler" and draw(st.integers(0, 2)) == 0
+    wide = kind != "euler" and draw(st.integers(0, 2)) == 0 and not cpp
     if wide:
         # wide dynamic range: prior ~1e4..1e6 with correlated states and accurate sensors (noise 1e-3..1e-1)
         L = [[(draw(st.floats(-1, 1, allow_nan=False)) * 10.0 ** draw(st.integers(-1, 3)) if j < i else
@@ -120,7 +121,7 @@ def cases(draw, steps=40):
             frac = draw(st.one_of(st.just(1.0), st.floats(0.01, 1.0, allow_nan=False)))
             ops.append({"op": k, "frac": frac, "u": {c: draw(models.signed_val()) for c in m["control"]}})
     return {"kind": kind, "model": m, "P0": P0, "rank_deficient": rank is not None and rank < n, "x0": x0, "ops": ops,
-            "wide": wide}
+            "wide": wide, "layer": "cpp" if cpp else "python"}
 
 
 def valid(C):
@@ -149,6 +150,8 @@ def singular_jacobian(f, m, state, control):
 
 def case(spec, ctx):
     ctxmod.import_formak()
+    if spec.get("layer") == "cpp":
+        return cpp_case(spec, ctx)
     m = spec["model"]
     with ctx.watchdog(30):
         with ctx.formak("compile_ekf", spec):
@@ -237,5 +240,52 @@ def case(spec, ctx):
                     "ops": spec["ops"][:6], "n_ops": len(spec["ops"])})
 
 
+def cpp_case(spec, ctx):
+    """the same kind of history through the generated C++ filter (templates process_model.cpp / sensor_model.hpp)"""
+    from vlib import cppharness as H
+
+    m = spec["model"]
+    max_dt = m["config"]["max_dt"]
+    ops = []
+    for op in spec["ops"][:25]:
+        if op["op"] == "update":
+            d = np.array(op["dir"], float)
+            nd = float(np.linalg.norm(d))
+            delta = (op["mag"] * d / nd) if nd > 0 else d * 0.0
+            ops.append(("S", op["key"], [float(v) for v in delta]))
+        else:
+            ops.append(("P", op["frac"] * max_dt * (-1.0 if op["op"] == "predict_back" else 1.0), op["u"]))
+    try:
+        with ctx.watchdog(60, "cpp-generation-timeout"):
+            with ctx.formak("generate:ekf", spec, allow=(H.CppError,)):
+                steps = H.run_history(m, spec["x0"], spec["P0"], ops)
+    except H.CppError as e:
+        if e.stage.endswith("timeout"):
+            ctx.skip(e.stage)
+        ctx.fail(f"cpp:{e.stage}", e.text[-3000:], spec)
+    ctx.add_extra("cpp_programs", 1)
+    prev_ok = valid(np.array(spec["P0"], float))[0]
+    executed = 0
+    for i, ((x, C), op) in enumerate(zip(steps, ops)):
+        if not (np.all(np.isfinite(C)) and np.all(np.isfinite(x))):
+            break
+        okc, asym, lmin, lmax, mx = valid(C)
+        if prev_ok and not okc:
+            ctx.fail(f"cpp:invalid-covariance-returned:{'update' if op[0] == 'S' else 'predict'}",
+                     f"step {i} ({op[0]}): generated C++ filter returned a covariance with asym={asym!r} lambda_min={lmin!r} "
+                     f"lambda_max={lmax!r} from a valid one", spec)
+        prev_ok = okc
+        executed += 1
+        if mx > 1e3 or mx < 1e-6 or float(np.max(np.abs(x), initial=0.0)) > 100.0:
+            break
+    ctx.count(executed)
+    ctx.event("cpp_history")
+    ctx.event("cpp_steps_executed", executed)
+    if executed >= 5:
+        ctx.nontrivial({"cpp": spec})
+        ctx.sample({"layer": "cpp", "kind": spec["kind"], "state": m["state"], "ops": ops[:5], "n_ops": len(ops)}, limit=4)
+
+
 def shard(ctx):
-    ctx.run_given(cases(steps=ctx.budget["steps"]), case)
+    ctx.run_given(cases(steps=ctx.budget["steps"]), case, share=0.6)
+    ctx.run_given(cases(steps=25, cpp=True), case, examples=ctx.budget.get("cpp_examples", 2), label="cpp")
